@@ -304,7 +304,7 @@ def runChain (env : Env) (progs : List (List Insn)) (k : Nat) (st : List Byte) :
     | .tail fd idx m =>
       if fd = env.c.policyJumpMapFD ∧ fd ≠ env.c.staticJumpMapFD then
         match slotToProg env.c idx with
-        | some k' => if h : k < k' ∧ k' < progs.length then runChain env progs k' m.st else .fault
+        | some k' => if _h : k < k' ∧ k' < progs.length then runChain env progs k' m.st else .fault
         | none => .fault
       else .tail fd idx m
     | o => o
